@@ -144,11 +144,11 @@ func (s *Sched) enabled(t *thread) bool {
 	if t.blocked == nil {
 		return true
 	}
-	if t.blocked() {
-		t.blocked = nil
-		return true
-	}
-	return false
+	// The condition is re-evaluated at every scheduling point and cleared only
+	// for the thread that is actually chosen (see next): two threads waiting
+	// for the same mutex are both enabled when it is released, but only the
+	// one that runs first may proceed.
+	return t.blocked()
 }
 
 func (s *Sched) end() {
@@ -214,6 +214,7 @@ func (s *Sched) next(t *thread, label string) {
 		idx = s.choose(Decision{Label: label, Enabled: en, Running: t.id, RunningEnabled: runEn})
 	}
 	nt := s.threads[en[idx]]
+	nt.blocked = nil
 	if nt == t {
 		return
 	}
